@@ -46,6 +46,8 @@ def jobs(tier, seed):
         tm = [(a, b, c) for a in (0, 1, 2) for b in (2, 3, 4) for c in (0, 1, 3)]
     for i, (noise, pl, tail) in enumerate(tm):
         out.append(('tmpl', noise, pl, tail, (i + seed) % 3, 1 if noise + tail <= 2 else 0, 4072))
+    out.append(('twin', 6, 1))
+    out.append(('twin', 19, 2))
     out.append(('big', 1030, 1))
     out.append(('big', 1029, 2))
     out.append(('tmpl', 1, 19, 1, 1, 0, 1005))
@@ -110,6 +112,25 @@ def run_job(spec):
             H['data'] = data
             st = shims.SymStream(data, faults=faults)
             return rdrdrv.iterate(st, mode=mode, max_calls=3 * n + 8)
+    elif kind == 'twin':
+        # two different intact frames of equal length that share their three CRC bytes (a 2^-24 coincidence the solver simply assumes)
+        _, pl, mode = spec
+        eng = sym.Engine(max_paths=64, conc_limit=3, conc_small=0)
+
+        def fn():
+            num = 4072 if pl < 19 else 1005
+            p, q, c = sym.symbytes("p", pl), sym.symbytes("q", pl), sym.symbytes("c", 3)
+            for x in (p, q):
+                eng.assume(msgdrv.fterm(x.term(), 8 * pl, 0, 12) == num)
+            hdr = [0xD3, 0, pl]
+            data = SymBytes(hdr + p.e + c.e + hdr + q.e + c.e)
+            H['data'] = data
+
+            def hook(arg, r):
+                if not isinstance(r, int) and len(arg) == pl + 6:
+                    eng.assume(r.t == 0)
+            st = shims.SymStream(data, faults=0)
+            return rdrdrv.iterate(st, mode=mode, max_calls=3 * len(data) + 8, crc_hook=hook)
     elif kind == 'big':
         # one maximum-size frame whose two length bytes are free: covers the 6 reserved bits and the 10-bit length
         _, T, mode = spec
@@ -165,24 +186,37 @@ def run_job(spec):
         run = path.value
         data = H['data']
 
+        def concretise(model):
+            if kind != 'twin':
+                return rdrdrv.fix_crcs(model, data, run)
+            # two intact frames with the SAME trailer: CRC-24Q is linear, so the last three payload bytes of the second frame are solved for
+            from . import concrete
+            raw = rdrdrv.model_bytes(model, data)
+            n = spec[1] + 6
+            f1 = bytearray(raw[:n])
+            f1[-3:] = concrete.crc24q_ref(bytes(f1[:-3])).to_bytes(3, "big")
+            f2 = bytearray(raw[n:2 * n])
+            if bytes(f2[3:-3]) == bytes(f1[3:-3]):
+                f2[5] ^= 0x5A
+            z = concrete.crc24q_ref(bytes(f2[:-6]) + b"\0\0\0")
+            f2[-6:-3] = concrete.state_preimage(z ^ int.from_bytes(f1[-3:], "big"))
+            f2[-3:] = f1[-3:]
+            return bytes(f1 + f2)
+
         def mkcase(why, model=None, want_bad_crc=None):
-            extra = []
-            if want_bad_crc is not None:
-                # ask for a frame whose independent CRC is wrong: cheap only through the code's own term
-                pass
             if model is None and eng.check3() == 'sat':
                 model = eng.solver.model()
             if model is None:
                 res['harness_errors'].append(f"{spec}: no model for '{why}'")
                 return
-            res['cex'].append({'kind': 'stream', 'data': rdrdrv.fix_crcs(model, data, run).hex(), 'mode': spec[2] if kind in ('free', 'big') else mode,
+            res['cex'].append({'kind': 'stream', 'data': concretise(model).hex(), 'mode': spec[2] if kind in ('free', 'big', 'twin') else mode,
                                'faults': {str(c): k for c, k in run.stream.fault_seen}, 'checks': ['c01'], 'why': why,
                                'dedup': f"{why[:50]}:{len(data)}"})
         check_pairs(eng, run, data, res, mkcase)
         if run.pairs() and wit < 4 and eng.check3() == 'sat':
             wit += 1
-            res['witnesses'].append({'kind': 'stream', 'data': rdrdrv.fix_crcs(eng.solver.model(), data, run).hex(),
-                                     'mode': spec[2] if kind in ('free', 'big') else mode,
+            res['witnesses'].append({'kind': 'stream', 'data': concretise(eng.solver.model()).hex(),
+                                     'mode': spec[2] if kind in ('free', 'big', 'twin') else mode,
                                      'faults': {str(c): k for c, k in run.stream.fault_seen}, 'checks': ['c01']})
     res.absorb_engine(eng)
     res['trunc'] = [t for t in res['trunc'] if t and t[0] != 'conc_limit']
